@@ -354,7 +354,9 @@ def campaign(run: common.Run) -> None:
         check_duration(run, kind, Fraction(num, den if kind == "days" else 1), run.hyp_fail)
 
     # (strings that look like something else: booleans in any capitalisation, null, numbers)
-    plain = st.text(alphabet="abcXYZ019_-", min_size=1, max_size=6) | st.sampled_from(["True", "FALSE", "tRuE", "False", "TRUE", "None", "null", "Null", "1", "0", "yes", "no", "1.0", "-1", "present", "absent", "empty"])
+    plain = st.text(alphabet="abcXYZ019_-", min_size=1, max_size=6) | st.sampled_from(["True", "FALSE", "tRuE", "False", "TRUE", "None", "null", "Null", "1", "0", "yes", "no", "1.0", "-1", "present", "absent", "empty",
+                                                                                    # letters whose lower-case, case-folded and upper-case forms do not line up
+                                                                                    "Straße", "STRASSE", "ΟΔΌΣ", "οδός", "µs", "μs", "ﬁn", "İi", "ſ", "Maße", "masse"])
     lsts = st.lists(st.sampled_from(["a", "b", "c", "ab", ""]), min_size=1, max_size=3, unique=True)
     common.drive(run, body_ops, {"v": st.one_of(st.integers(-3, 3), st.integers(-10**6, 10**6)), "s": plain, "lst": lsts}, 60 if q else 400, seed_salt=1, shrink=False)
     common.drive(run, body_time, {"days": st.one_of(st.integers(0, 40), st.integers(0, 4000))}, 60 if q else 300, seed_salt=2, shrink=False)
